@@ -90,6 +90,13 @@ pub fn ref_setting_class(id: u64) -> IdClass {
 
 /// byte-wise UTF-8 validator (Unicode Table 3-7), used as stub for core's word-at-a-time validator
 pub fn utf8_model_ok(v: &[u8]) -> bool {
+    utf8_model(v).is_ok()
+}
+
+/// the same validator with core's error report: Err((valid_up_to, error_len)) where error_len is None when the input
+/// ends inside a so-far well-formed sequence and Some(k) when byte k of the sequence starting at valid_up_to is wrong
+/// (core::str::Utf8Error semantics; the code under test may branch on either, e.g. lossy / truncating decoders)
+pub fn utf8_model(v: &[u8]) -> Result<(), (usize, Option<u8>)> {
     let n = v.len();
     let mut i = 0;
     while i < n {
@@ -113,30 +120,34 @@ pub fn utf8_model_ok(v: &[u8]) -> bool {
         } else if b == 0xF4 {
             (3, 0x80, 0x8F)
         } else {
-            return false;
+            return Err((i, Some(1)));
         };
-        if n - i <= need {
-            return false;
+        if i + 1 >= n {
+            return Err((i, None));
         }
         if v[i + 1] < lo || v[i + 1] > hi {
-            return false;
+            return Err((i, Some(1)));
         }
         let mut k = 2;
         while k <= need {
+            if i + k >= n {
+                return Err((i, None));
+            }
             if v[i + k] < 0x80 || v[i + k] > 0xBF {
-                return false;
+                return Err((i, Some(k as u8)));
             }
             k += 1;
         }
         i += need + 1;
     }
-    true
+    Ok(())
 }
 
 pub fn utf8_validation_stub(v: &[u8]) -> Result<(), core::str::Utf8Error> {
-    if utf8_model_ok(v) {
-        Ok(())
-    } else {
-        Err(unsafe { core::mem::transmute::<(usize, Option<u8>), core::str::Utf8Error>((0usize, Some(1u8))) })
+    match utf8_model(v) {
+        Ok(()) => Ok(()),
+        // Utf8Error { valid_up_to: usize, error_len: Option<u8> }: built by transmute (no public constructor); the
+        // accessors are compared with the real validator's in proto::c11_utf8_model_equiv_*
+        Err(e) => Err(unsafe { core::mem::transmute::<(usize, Option<u8>), core::str::Utf8Error>(e) }),
     }
 }
